@@ -213,6 +213,13 @@ def _run(ctx, g, c):
 
     if over:
         ctx.count("max_prior_samples > library size (predicate-only)")
+        # "never more than max_prior_samples (or the library size)": a budget above the library size is the library size
+        if init <= N and out != "ok" and not nonfin_seen:
+            ctx.evaluated(REL, (c["kind"], c["path"], "over-budget"))
+            viol(f"max_prior_samples={c['max_prior']} above the library size {N} means 'the whole library': the request "
+                 f"(initial batch {init} <= {N}) must be served as with max_prior_samples=None; the call ended with {out}: "
+                 f"{str(ob['res'])[:160]}", extra_tags=dict(over_budget=True))
+            return
 
     hard_nonfin = any(np.isnan(c["profile"][r]) or c["profile"][r] == np.inf for r in evaluated)
     if nonfin_seen:
